@@ -627,3 +627,18 @@ R.contract("Application.send_request", params={"self": "Application", "message":
                      "dict:some(self._node)._app_waiting_answer", "dict:self._answer_waiting", "*WaitingMessage.answer", "*Event.flag"],
            props=["C10", "C19"])
 R.kind_hints[("Application.__init__", "{}")] = "Dict[int,WaitingMessage]"
+
+# C10 (schedules): the blocked sender's waiter is registered BEFORE the request is handed to the node - otherwise an answer
+# arriving right after the hand-over finds no waiter and is treated as unexpected while the sender times out.  Expressed
+# as a call-site obligation: inside Application.send_request, Node.send_message is used through a copy of its verified
+# contract with one more precondition (a stronger precondition only restricts where the contract may be used).
+import copy as _copy
+from pyvc.spec import Clause as _Clause
+from pyvc.values import parse_kind as _parse_kind
+_sm = _copy.copy(R.contracts["Node.send_message"])
+_sm.requires = list(_sm.requires) + [_Clause("waiter-registered-before-the-request-is-handed-over",
+                                             "implies(is_req(message), message.header.hop_by_hop_identifier in app._answer_waiting)")]
+_sm.ghost = _copy.copy(_sm.ghost)
+_sm.ghost["app"] = _parse_kind("Application")
+R.contracts["Application.send_request"].call_overrides = {"Node.send_message": _sm}
+R.contracts["Application.send_request"].ghost_bind = {"Node.send_message": {"app": "self"}}
